@@ -234,6 +234,14 @@ void Groups::evalArguments( int argc, char* argv[]) noexcept( false)
                key_handler = ah;
             } // end for
          } // end if
+
+         // values that follow belong to this argument, not to an argument of
+         // another handler that accepts multiple, separate values
+         for (auto & stored_group : mArgGroups)
+         {
+            if (stored_group.mpArgHandler.get() != key_handler)
+               stored_group.mpArgHandler->endValueList();
+         } // end for
       } // end if
 
       for (auto & stored_group : mArgGroups)
